@@ -76,6 +76,51 @@ def moves(ctx, t, origin, wf_lines, wf_meta):
             ctx.spec_failures.append((f"C06:dtype-move-scale-value:{type(t).__name__}", {"origin": origin}))
 
 
+def inplace_copies(ctx, t, origin, wf_lines, wf_meta):
+    """`dest.copy_(src)` keeps what `dest` reports: sources of another float dtype (the float program casts), and a per-tensor
+    source written into a per-axis destination (the float program broadcasts)"""
+    from optimum.quanto import QBytesTensor
+    if not isinstance(t, QBytesTensor):
+        return
+    import optimum.quanto as q
+    srcs = []
+    for dt in (torch.float32, torch.float16, torch.bfloat16):
+        if dt != t.dtype:
+            try:
+                srcs.append((f"from-{str(dt).split('.')[-1]}", t.to(dt)))
+            except Exception:  # noqa
+                pass
+    if t.axis is not None:
+        s1 = t._scale.reshape(-1)[:1].reshape(())
+        srcs.append(("per-tensor-into-per-axis", QBytesTensor(t.qtype, None, t.size(), t.stride(), t._data.clone(), s1.clone())))
+    for name, src in srcs:
+        dest = t.clone()
+        if not oc.is_q(dest):
+            return
+        want_dtype, want_shape, want_axis = dest.dtype, tuple(dest.shape), dest.axis
+        try:
+            r = dest.copy_(src)
+        except Exception as e:  # noqa
+            ctx.spec_failures.append((f"C06:copy_-raises:{name.split('-')[0]}:{exc_name(e)}", {"origin": origin, "case": name, "message": str(e)[:150]}))
+            continue
+        ctx.evaluations += 1
+        for label, v in (("dest", dest), ("returned", r)):
+            if not oc.is_q(v):
+                ctx.spec_failures.append((f"C06:copy_-dequantizes:{label}", {"origin": origin, "case": name}))
+                continue
+            check_q(ctx, v, f"copy_-{name}-{label}:{origin}", wf_lines, wf_meta)
+            if v.dtype != want_dtype or tuple(v.shape) != want_shape or v.axis != want_axis or v._scale.dtype != want_dtype:
+                ctx.spec_failures.append((f"C06:copy_-alters-reported-metadata:{name}", {"origin": origin, "dtype": [str(v.dtype), str(v._scale.dtype), str(want_dtype)], "axis": [v.axis, want_axis]}))
+            elif not codes_equal_data(v, src):
+                ctx.spec_failures.append((f"C06:copy_-alters-codes:{name}", {"origin": origin}))
+            elif bits_of(v._scale.expand_as(t._scale) if v._scale.shape != t._scale.shape else v._scale) != bits_of(src._scale.to(want_dtype).expand_as(t._scale)):
+                ctx.spec_failures.append((f"C06:copy_-scale-value:{name}", {"origin": origin}))
+
+
+def codes_equal_data(a, b):
+    return bits_of(a._data.float()) == bits_of(b._data.float()) if a._data.dtype != torch.int8 else torch.equal(a._data, b._data)
+
+
 def state_dict_roundtrip(ctx, t, origin, wf_lines, wf_meta):
     from optimum.quanto import QBitsTensor, QBytesTensor
     sd = {}
@@ -102,7 +147,7 @@ def run(ctx):
     lean_obligations(ctx)
     rng = ctx.rng
     ctx.extra["rule"] = ("every quantized value reached by the C05 programs (depth 1-8), by quantize_weight / quantize_activation over all six qtypes, axes, group sizes, dtypes and ranks, "
-                         "by detach / clone / device copy / dtype moves, by state_dict flatten→unflatten, and by freeze() of Linear/Conv2d modules. distinct = (origin, qtype, axis, group, shape, dtype); non-trivial = all")
+                         "by detach / clone / device copy / dtype moves, by in-place copy_ from sources of another dtype / scale shape, by state_dict flatten→unflatten, and by freeze() of Linear/Conv2d modules. distinct = (origin, qtype, axis, group, shape, dtype); non-trivial = all")
     wf_lines, wf_meta = [], []
     seen = set()
 
@@ -117,6 +162,7 @@ def run(ctx):
                 if key not in seen and len(seen) < 400:
                     seen.add(key)
                     moves(ctx, o, f"op:{name}", wf_lines, wf_meta)
+                    inplace_copies(ctx, o, f"op:{name}", wf_lines, wf_meta)
                     state_dict_roundtrip(ctx, o, f"op:{name}", wf_lines, wf_meta)
 
     n = 250 if not ctx.thorough else 3000
@@ -144,6 +190,7 @@ def run(ctx):
         if t.qtype != qt:
             ctx.spec_failures.append(("C06:qtype-not-as-requested", {"origin": origin}))
         moves(ctx, t, origin, wf_lines, wf_meta)
+        inplace_copies(ctx, t, origin, wf_lines, wf_meta)
         state_dict_roundtrip(ctx, t, origin, wf_lines, wf_meta)
         if i % 3 == 0 and qt.bits == 8:
             a = q.quantize_activation(x, qt, (x.abs().max() / 100 + 1e-3).to(x.dtype))
